@@ -73,7 +73,8 @@ CLAIMED = {
              'uninterpreted. Names with a Rust-alphanumeric that is not an ECMAScript identifier char are a listed known finding. A full '
              'TypeScript grammar is outside; instead the inline() text of every corpus item (names in every derive position: renamed, rename_all, '
              '`type`-overridden, raw, struct-variant fields, variant / tag / content keys) must parse under a strict TypeScript type grammar '
-             '(props/tsparse.py), and variant-name literals with a symbolic name are decided (listed known finding F15).',
+             '(props/tsparse.py), variant-name literals with a symbolic name are decided (listed known finding F15), and the type-identifier '
+             'position is decided for a symbolic container rename (listed known finding F18: non-identifier renames are written verbatim).',
         ref='DESIGN.md 4 (C04)'),
     'C06': dict(
         text='For every history of 2 (quick: reduced 3) calls over {export, export_all, export_all_to} x {A, B (share a file), C (depends on '
@@ -108,12 +109,12 @@ CLAIMED = {
              'yields exactly the directory of the fault-free history.',
         ref='DESIGN.md 4 (C17)'),
     'C10': dict(
-        text='For every attribute argument list of up to 4 (thorough: 7) tokens whose token kinds (ident, =, comma, string / int literal, '
+        text='For every attribute argument list of up to 4 (thorough: 5) tokens whose token kinds (ident, =, comma, string / int literal, '
              'group, other punct) and identifier / literal texts (over the vocabulary of all table keys, the rename_all values and '
              '"anything else") are solver variables, each of the eight generated parsers (ts and serde table x struct, enum, variant, '
              'field) returns on every path exactly what a reference interpreter of the documented attribute grammar returns: same '
              'record, same Ok/Err; in particular unknown or list-form serde items are skipped without touching their neighbours and the '
-             'serde and ts tables agree on every shared key. For attribute lists of 2 (3) attributes of symbolic kind ts/serde/other, '
+             'serde and ts tables agree on every shared key. For attribute lists of 2 (thorough also: 3 short) attributes of symbolic kind ts/serde/other, '
              'from_attrs equals "all ts lists merged first, serde lists underneath (a serde list that fails to parse dropped as a whole), '
              'bools or-ed, serde ignored after ts(skip)"; with serde-compat off serde attributes have no effect; no-serde-warnings does '
              'not change the meaning. Never a panic.',
